@@ -26,7 +26,7 @@ import elementpath.aliases as ta
 
 from elementpath.exceptions import ElementPathValueError
 from elementpath.namespaces import XML_ID, XML_LANG, XML_NAMESPACE
-from elementpath.helpers import Patterns, is_idrefs, is_xml_codepoint, round_number
+from elementpath.helpers import Patterns, get_double, is_idrefs, is_xml_codepoint, round_number
 from elementpath.datatypes import DateTime10, DateTime, Date10, Date, \
     Float, DoubleProxy, Time, Duration, DayTimeDuration, YearMonthDuration, \
     UntypedAtomic, AnyURI, QName, NCName, Id, ArithmeticProxy, NumericProxy
@@ -462,7 +462,7 @@ def evaluate__avg(self: XPathFunction, context: ta.ContextType = None) \
     else:
         try:
             return sum(
-                float(x) if isinstance(x, Decimal) else x for x in values  # type: ignore[misc]
+                get_double(x) if isinstance(x, (int, Decimal)) else x for x in values
             ) / len(values)
         except TypeError as err:
             if isinstance(context, XPathSchemaContext):
@@ -496,7 +496,7 @@ def evaluate__max_min_functions(self: XPathFunction, context: ta.ContextType = N
             return float_class('NaN')
         elif all(isinstance(x, (int, float, Decimal)) for x in values):
             return float_class(
-                aggregate_func(cast(list[NumericType], values))
+                get_double(aggregate_func(cast(list[NumericType], values)))
             )
         return aggregate_func(values)  # type: ignore[type-var]
 
@@ -590,7 +590,7 @@ def select__distinct_values(self: XPathFunction, context: ta.ContextType = None)
                     if not nan:
                         yield value
                         nan = True
-                elif all(not math.isclose(value, x, rel_tol=1E-18, abs_tol=0)
+                elif all(not math.isclose(value, get_double(x), rel_tol=1E-18, abs_tol=0)
                          for x in results if isinstance(x, (int, Decimal, float))):
                     yield value
                     results.append(value)
